@@ -18,7 +18,13 @@ ASSUME = ['energy and norm are exact invariants of every local Krylov sub-step (
 
 def run_integrator(kind, H, psi, dt, steps, iters):
     if kind == 'single':
+        if iters == 25:
+            return ptn.integrate_local_singlesite(H, psi, dt, steps)      # documented default numiter_lanczos = 25
         return ptn.integrate_local_singlesite(H, psi, dt, steps, numiter_lanczos=iters)
+    if iters == 25:
+        return ptn.integrate_local_twosite(H, psi, dt, steps)             # documented defaults numiter_lanczos = 25, tol_split = 0
+    if iters % 2:
+        return ptn.integrate_local_twosite(H, psi, dt, steps, numiter_lanczos=iters)
     return ptn.integrate_local_twosite(H, psi, dt, steps, numiter_lanczos=iters, tol_split=0)
 
 
@@ -107,7 +113,7 @@ def gen_tdvp(draw, tier):
     mag = draw(st.sampled_from([1e-3, 0.01, 0.05, 0.1, 0.3, 1.0]))
     c['tau'] = mag * draw(st.sampled_from([1, -1]))
     c['steps'] = draw(st.sampled_from([1, 2, 3, 4]))
-    c['iters'] = draw(st.sampled_from([3, 1, 2, 4, 5, 6, 8]))
+    c['iters'] = draw(st.sampled_from([3, 1, 2, 4, 5, 6, 8, 25]))
     c['scale'] = draw(st.sampled_from([4.0, 0.25, -2.0, 1024.0]))   # powers of two: the scaling is exact in floating point
     c['second_call'] = draw(st.booleans())
     c['edit_between'] = draw(st.sampled_from([False, True, 'gauge']))
